@@ -24,8 +24,12 @@ def process_fleet_file(fleet_file: str, entity_type: str) -> MembershipMap:
     with open(fleet_file) as f:
         config_dict = yaml.safe_load(f)
 
-        for fleet_id in config_dict:
-            for entity_id in config_dict[fleet_id][entity_type]:
+        for raw_fleet_id in config_dict:
+            # ids are text everywhere else (the entity and request files are CSVs); YAML reads a bare
+            # number such as 101 as an integer, which would never match the id "101" of the entity
+            fleet_id = str(raw_fleet_id)
+            for raw_entity_id in config_dict[raw_fleet_id][entity_type]:
+                entity_id = str(raw_entity_id)
                 if entity_id in fleet_id_map_mutation:
                     fleet_id_map_mutation[entity_id] = fleet_id_map_mutation[entity_id] + (
                         fleet_id,
@@ -46,7 +50,7 @@ def read_fleet_ids_from_file(fleet_file: str) -> FrozenSet[EntityId]:
     try:
         with open(fleet_file) as f:
             fleet_dict = yaml.safe_load(f)
-        result = frozenset(fleet_dict.keys())
+        result = frozenset(str(fleet_id) for fleet_id in fleet_dict.keys())
         return result
     except Exception as e:
         raise IOError(f"failed reading fleet ids from fleet file {fleet_file}") from e
